@@ -150,12 +150,16 @@ def default_spec(**kw):
                        when the configuration has no RAOP service
     txt                the services carry the TXT records real devices announce (TXT_RECORDS) instead
                        of empty ones: what set-up derives from them (metadata types, models …) is in play
+    companion_device   None: Companion's SetupData.connect is replaced like the others.  {"reject": [ids]}: the
+                       REAL connect callable of Companion runs (CompanionAPI.connect, CompanionPower.initialize)
+                       against a fake device (FakeCompanionProtocol) that answers every request except the
+                       listed ones, which it rejects with an error reply
     profile            a device of DEVICE_PROFILES as pyatv's own scanner sees it (configuration built by the
                        real scan handlers); `services` then lists the protocols left enabled, `video`,
                        `tunnel`, `unified` and `txt` are given by the device's TXT records
     """
     spec = {"services": list(TEXT_ORDER), "companion_creds": True, "video": True, "tunnel": False, "unified": False,
-            "txt": False, "profile": None}
+            "txt": False, "profile": None, "companion_device": None}
     spec.update(kw)
     return spec
 
@@ -187,6 +191,62 @@ async def _connected():
 
 async def _refused():
     return False
+
+
+class FakeCompanionConnection:
+    """Stands in for CompanionConnection (the TCP transport)."""
+
+    def __init__(self, *a, **k):
+        pass
+
+    def set_listener(self, listener):
+        pass
+
+    async def connect(self):
+        pass
+
+    def close(self):
+        pass
+
+
+def fake_companion_protocol(reject, seen):
+    """A Companion device at the level of CompanionProtocol (pair-verify and framing left out):
+    every OPACK request `_i` is answered, the ones in `reject` with an error reply, which the
+    real CompanionProtocol surfaces as ProtocolError("Command failed: ...")."""
+    from pyatv import exceptions
+
+    answers = {"_sessionStart": {"_sid": 1}, "FetchAttentionState": {"state": 3}}
+
+    class FakeCompanionProtocol:
+        def __init__(self, connection, srp, service):
+            self.connection, self.srp, self.service = connection, srp, service
+            self.listener = None
+
+        async def start(self):
+            pass
+
+        def stop(self):
+            pass
+
+        def _ident(self, data):
+            ident = data.get("_i")
+            content = data.get("_c") or {}
+            if ident == "_interest":        # which event is (de)registered
+                ident += ":" + ",".join(content.get("_regEvents", []) or content.get("_deregEvents", []))
+            if ident not in seen:
+                seen.append(ident)
+            if ident in reject:
+                raise exceptions.ProtocolError(f"Command failed: {ident} rejected by the device")
+            return ident
+
+        async def exchange_opack(self, frame_type, data, timeout=5.0):
+            ident = self._ident(data)
+            return {"_c": dict(answers.get(ident, {})), "_t": 3, "_x": data.get("_x", 0)}
+
+        def send_opack(self, frame_type, data):
+            self._ident(data)
+
+    return FakeCompanionProtocol
 
 
 async def _build(spec, fail=()):
@@ -229,24 +289,39 @@ async def _build(spec, fail=()):
     queue, cores = [], {}
     real = pyatv.PROTOCOLS
 
+    device = spec.get("companion_device")
+    seen = []
+
     def wrap(proto, methods):
         def setup(core):
             cores[proto] = core
             for sd in methods.setup(core):
                 k = len(queue)
                 queue.append((proto, sd))
-                yield sd._replace(connect=_refused if k in fail else _connected, close=lambda: set())
+                if device is not None and sd.protocol == Protocol.Companion and k not in fail:
+                    yield sd._replace(close=lambda: set())       # the real connect callable runs
+                else:
+                    yield sd._replace(connect=_refused if k in fail else _connected, close=lambda: set())
         return methods._replace(setup=setup)
 
+    from pyatv.protocols.companion import api as companion_api
+
+    saved = (companion_api.CompanionConnection, companion_api.CompanionProtocol)
+    if device is not None:
+        companion_api.CompanionConnection = FakeCompanionConnection
+        companion_api.CompanionProtocol = fake_companion_protocol(set(device.get("reject", [])), seen)
     pyatv.PROTOCOLS = {proto: wrap(proto, methods) for proto, methods in real.items()}
     atv, error = None, None
     try:
         atv = await pyatv.connect(config, asyncio.get_running_loop(), session=_Session())
-    except Exception as e:   # e.g. NoServiceError when nothing was set up
+    except Exception as e:   # e.g. NoServiceError when nothing was set up, or the real connect gave up
         error = e
     finally:
         pyatv.PROTOCOLS = real
-    return Built(atv, queue, cores, list(real.keys()), error)
+        companion_api.CompanionConnection, companion_api.CompanionProtocol = saved
+    built = Built(atv, queue, cores, list(real.keys()), error)
+    built.companion_requests = seen
+    return built
 
 
 def build_world(loop=None, spec=None, fail=()):
